@@ -78,10 +78,13 @@ CLAIMED["C01"] = {
 CLAIMED["C04"] = {
     "text": "Theorems (closed): for every register list and text content the loop terminates within |content|+1 steps, yields exactly the "
             "lines of the content in order (split_lines, which concatenate back to the content), each dispatched to the first declared "
-            "register whose identifier occurs in the leading window else default; default elements hold the line verbatim and typed data "
-            "are a function of that line alone. Tied to RegisterFile.read by a complete small scope over line pools and random grammars.",
-    "note": BASE_NOTE + "Identifier matching is modelled for metacharacter-free identifiers (substring search); the dispatch theorems hold for the model's reg_matches.",
-    "technique": "Coq proof (generic fuelled loop refined to an inductive specification, induction on lines) + differential correspondence",
+            "register whose identifier pattern is found in the leading window else default; default elements hold the line verbatim and typed data "
+            "are a function of that line alone. 'Found' is re.search: the identifier is a literal or a regular expression of the model's language "
+            "(Py/PyRe.v), whose matcher is proved equal to the denotational semantics for every expression and subject (C04_identifier_found; "
+            "literals = substring search, C04_identifier_literal). Tied to RegisterFile.read by a complete small scope over line pools, random "
+            "grammars and generated regular-expression identifiers.",
+    "note": BASE_NOTE + "Regular expressions: literals, classes, . \\s \\d, ^ $, concatenation, alternation, * + ? {m,n}; not modelled: back-references, look-around, flags, \\b \\w. The matcher is tied to CPython's re by the C12 extra tie.",
+    "technique": "Coq proof (generic fuelled loop refined to an inductive specification, induction on lines; regex matcher = denotational semantics by induction on the expression, ordered sweep for the star) + differential correspondence",
 }
 CLAIMED["C09"] = {
     "text": "Theorems (closed): little-endian two's-complement encode/decode are mutually inverse for every width and every in-range "
@@ -107,9 +110,12 @@ CLAIMED["C12"] = {
     "text": "Theorems (closed): for every block list, content and storage the loop terminates, the elements' raw data concatenate to the "
             "content and writing reproduces it exactly; the elements are those of the inductive specification (first declared begin "
             "match on the first line / first byte, else a one-line default block). Refuted for the code as found in binary storage. "
-            "Tied to BlockFile.read/write with raw blocks over regex pattern pools, complete small scope + random, text and binary.",
-    "note": BASE_NOTE + "Patterns are alternations of optionally ^-anchored literals (translated fail-closed to Python regexes); blocks are the harness's raw blocks.",
-    "technique": "Coq proof (accounting invariant of the generic loop, progress measure) + differential correspondence",
+            "'Found in the line' is re.search for regular expressions (Py/PyRe.v): C12_found proves the model's matcher equal to the textbook "
+            "denotational semantics for EVERY expression and line (nested stars included); literal / anchored / alternated patterns are "
+            "instances (C12_found_literal ...). Tied to BlockFile.read/write with raw blocks over pattern pools and generated regular expressions, "
+            "complete small scope + random, text and binary, and to CPython's re itself (search/match/fullmatch, small scope complete + random + \\s/\\d tables).",
+    "note": BASE_NOTE + "Patterns: literals, classes, . \\s \\d (Unicode for str, ASCII for bytes), ^ $, concatenation, alternation, * + ? {m,n}; not modelled: back-references, look-around, flags, \\b \\w. Blocks are the harness's raw blocks.",
+    "technique": "Coq proof (accounting invariant of the generic loop, progress measure; regex matcher = denotational semantics by induction on the expression, ordered sweep for the star) + differential correspondence",
 }
 CLAIMED["C05"] = {
     "text": "Theorems (closed): for every register list and every sequence of elements satisfying the per-element premise (typed: written "
@@ -133,14 +139,14 @@ CLAIMED["C10"] = {
             "ends with one newline; reading k registers from k concatenated line chunks consumes exactly one chunk per read (any k); a "
             "contiguous binary layout writes identifier+field widths bytes and reading consumes exactly that, so binary streams stay "
             "aligned; the code as found is refuted. Tied to Register.write/matches/read + buffer.tell() in three storages over streams of 1-8.",
-    "note": BASE_NOTE + "Delimited form: identifier-first-token is checked by the oracle; data equality per record is C01/C09/C11.",
+    "note": BASE_NOTE + "Delimited form: identifier-first-token is checked by the oracle; data equality per record is C01/C09/C11. reg_wf covers identifier tests that are regular expressions: the premise is that the expression finds the left-justified literal (decidable).",
     "technique": "Coq proof (stream alignment by induction over the record list, frame lemma for identifier columns) + differential correspondence",
 }
 CLAIMED["C13"] = {
     "text": "Theorems (closed): for every section list and EVERY content (shorter than expected included) reading terminates, writing "
             "reproduces the content, declared sections come first exactly once in order, each starting where the previous stopped, and the "
             "remaining lines become one default section per line. Tied to SectionFile.read/write with raw sections, complete small scope.",
-    "note": BASE_NOTE + "Sections are the harness's raw sections (fixed line counts / until-pattern).",
+    "note": BASE_NOTE + "Sections are the harness's raw sections (fixed line counts / until-pattern, the pattern a regular expression of the model's language, see C12).",
     "technique": "Coq proof (fold over declared sections + default loop) + differential correspondence (exhaustive small scope)",
 }
 CLAIMED["C18"] = {
